@@ -9,7 +9,9 @@
 (*       "nVerify"|"nVerifyBlob", level : "strict"|"permissive"|"audit"|   *)
 (*       "skip", global : BOOLEAN, sig : "valid"|"invalid"|"garbage"|      *)
 (*       "empty", plugin : "none"|"nilManager"|"installed",                *)
-(*       revopt : "validator"|"client"|"default"]                          *)
+(*       revopt : "validator"|"client"|"default",                          *)
+(*       meta : "none"|"match"|"missing"  (user metadata the caller        *)
+(*       requires: none, present in the signature, absent from it)]        *)
 (***************************************************************************)
 EXTENDS Verifier
 
@@ -22,7 +24,8 @@ VIn(in) ==
   [api |-> IF in.entry \in {"vVerify", "nVerify"} THEN "Verify" ELSE "VerifyBlob",
    sel |-> IF HasDoc(in) THEN "ok" ELSE "nildoc", skip |-> in.level = "skip", env |-> EnvOf(in.sig),
    desc |-> [dgEq |-> TRUE, szEq |-> TRUE, mt |-> "same", genErr |-> FALSE],
-   required |-> [k \in MetaKeys |-> "-"], signed |-> [k \in MetaKeys |-> "-"],
+   required |-> [k \in MetaKeys |-> IF in.meta # "none" /\ k = "k1" THEN "v1" ELSE "-"],
+   signed |-> [k \in MetaKeys |-> IF in.meta = "match" /\ k = "k1" THEN "v1" ELSE "-"],
    level |-> BaseLevel(in.level), anchor |-> "found", identity |-> "match", expired |-> FALSE, certTime |-> "valid", rev |-> "ok",
    plugin |-> IF in.plugin = "none" THEN "none" ELSE IF in.plugin = "nilManager" THEN "nilManager" ELSE "TI",
    verdictTI |-> "success", verdictREV |-> "success", crit |-> "none"]
